@@ -112,6 +112,26 @@ fn run<T: Fl>(c: &Case, lx: &mut Local) {
                 }
                 other => lx.fail("C07/central-moments-failed", || format!("[{}] central_moments(8) on {:?}: {:?}", T::NAME, xs, other.map(|r| r.map(|v| v.len())))),
             }
+            // the bulk form with every smaller cut-off order (0, 1, 2 have their own code paths)
+            for cut in 0..=4u16 {
+                match guarded(|| v.central_moments(cut)) {
+                    Ok(Ok(ms)) => {
+                        lx.check(ms.len() == cut as usize + 1, "C07/central-moments-length", || format!("[{}] central_moments({}) returned {} entries", T::NAME, cut, ms.len()));
+                        for (p, m) in ms.iter().enumerate().take(cut as usize + 1) {
+                            let m = m.to_f64_();
+                            if p == 0 {
+                                lx.check(m == 1.0, "C07/order-0-not-one", || format!("[{}] central_moments({})[0] = {:?} on {:?}", T::NAME, cut, m, xs));
+                            } else if p == 1 {
+                                lx.check(m == 0.0, "C07/order-1-not-zero", || format!("[{}] central_moments({})[1] = {:?} on {:?}", T::NAME, cut, m, xs));
+                            } else {
+                                let e = err_of(m, &exact[p]);
+                                lx.within(e, bounds[p], "C07/central-moment", || format!("[{}] central_moments({})[{}] of {:?} = {:e}, exact {:e}, error {:e} > bound {:e}", T::NAME, cut, p, xs, m, exact[p].to_f64(), e, bounds[p]));
+                            }
+                        }
+                    }
+                    other => lx.fail("C07/central-moments-failed", || format!("[{}] central_moments({}) on {:?}: {:?}", T::NAME, cut, xs, other.map(|r| r.map(|v| v.len())))),
+                }
+            }
             for p in 0..=8u16 {
                 match guarded(|| v.central_moment(p)) {
                     Ok(Ok(m)) => {
